@@ -24,6 +24,7 @@ pub fn gen_spec(rng: &mut Rng, screen: &mut Screen) -> (RunSpec, usize, usize) {
         k.min_eligible = rng.range(2, 4);
         k.max_files_per_dir = k.max_files_per_dir.max(2);
     }
+    k.blank_files = rng.chance(1, 8);
     gen::gen_tree(rng, screen, &mut world, "/w/c", &k);
     let place = if rng.chance(1, 2) {
         CwdPlace::Parent
@@ -32,15 +33,14 @@ pub fn gen_spec(rng: &mut Rng, screen: &mut Screen) -> (RunSpec, usize, usize) {
     };
     let dir = gen::place_cwd(rng, &mut world, "/w/c", place);
     let (schedule, lm, im) = gen::gen_schedule(rng, &world);
+    let (mut vul, mut opt, mut qa) = (gen::gen_pats(rng, Cat::Vul), gen::gen_pats(rng, Cat::Opt), gen::gen_pats(rng, Cat::Qa));
+    for l in [&mut vul, &mut opt, &mut qa] {
+        gen::keep_blank_tolerant(&world, l);
+    }
     let spec = RunSpec {
         world,
         schedule,
-        mode: Mode::Lib {
-            dir,
-            vul: gen::gen_pats(rng, Cat::Vul),
-            opt: gen::gen_pats(rng, Cat::Opt),
-            qa: gen::gen_pats(rng, Cat::Qa),
-        },
+        mode: Mode::Lib { dir, vul, opt, qa },
         render: false,
     };
     (spec, lm, im)
@@ -366,6 +366,17 @@ impl Property for C03 {
         );
         r.probe("subdir_listed_after_sibling_with_shared_pattern", j.probe_subdir_after_sibling);
         r.probe("same_name_in_two_dirs", j.probe_same_name);
+        r.probe(
+            "blank_eligible_file_read_before_a_sibling",
+            {
+                // a white-space-only eligible file was read, and another file of the same directory after it
+                let reads: Vec<&String> = out.journal.iter().filter_map(|e| match e { Ev::Read { path, .. } => Some(path), _ => None }).collect();
+                reads.iter().enumerate().any(|(i, p)| {
+                    spec.world.file(p).map_or(false, |(b, _)| !b.is_empty() && gen::is_blank(b))
+                        && reads[i + 1..].iter().any(|q| crate::world::parent_of(q) == crate::world::parent_of(p))
+                })
+            },
+        );
         r.probe(
             "directory_with_more_than_256_entries",
             out.journal.iter().any(|e| matches!(e, Ev::ReadDir { result: Ok(l), .. } if l.len() > 256)),
